@@ -18,11 +18,138 @@ Strict(o) == [res |-> o.res, st |-> o.st, kf |-> "", inv |-> "ok", skip |-> FALS
 Is(impl, S) == impl \in S
 
 \* DEVIATIONS-BEGIN (one operator per finding; see known_findings.json)
+
+MemLinkBudget == 64      \* memfs: slCountMax
+
+Mem(impl) == impl = "memfs"
+Orefa(impl) == impl = "orefafs"
+Both(impl) == impl \in {"memfs", "orefafs"}
+
+\* lexical cleaning of a component list (what avfs.Clean / Join do to an absolute path)
+RECURSIVE LexCleanR(_, _)
+LexCleanR(acc, parts) ==
+    IF parts = <<>> THEN acc
+    ELSE LET c == Head(parts) IN
+         IF c = "." \/ c = "" THEN LexCleanR(acc, Tail(parts))
+         ELSE IF c = ".." THEN LexCleanR(IF acc = <<>> THEN acc ELSE Front(acc), Tail(parts))
+         ELSE LexCleanR(Append(acc, c), Tail(parts))
+AbsParts(st, p) == LexCleanR(<<>>, IF p.abs THEN p.parts ELSE st.cwdn \o p.parts)
+
+\* MemFS.searchNode in "eval" mode, reporting where it stopped
+RECURSIVE MWalk(_, _, _, _, _)
+MWalk(st, stk, nstk, parts, bud) ==
+    IF parts = <<>> THEN [kind |-> "found", stk |-> stk, nstk |-> nstk, id |-> Last(stk), rest |-> <<>>]
+    ELSE
+    LET c == Head(parts)   rest == Tail(parts)   top == Last(stk)   d == st.ino[top] IN
+    IF c = "." \/ c = "" THEN MWalk(st, stk, nstk, rest, bud)
+    ELSE IF c = ".." THEN MWalk(st, IF Len(stk) > 1 THEN Front(stk) ELSE stk,
+                                IF Len(stk) > 1 THEN Front(nstk) ELSE nstk, rest, bud)
+    ELSE IF c \notin DOMAIN d.ent THEN [kind |-> "missing", stk |-> stk, nstk |-> nstk, id |-> 0, rest |-> parts]
+    ELSE
+    LET id == d.ent[c]   n == st.ino[id] IN
+    IF n.k = "dir" THEN
+        IF rest # <<>> /\ ~May(st, id, 1) THEN [kind |-> "denied", stk |-> stk, nstk |-> nstk, id |-> id, rest |-> parts]
+        ELSE MWalk(st, Append(stk, id), Append(nstk, c), rest, bud)
+    ELSE IF n.k = "file" THEN
+        IF rest = <<>> THEN [kind |-> "found", stk |-> stk, nstk |-> nstk, id |-> id, rest |-> <<>>]
+        ELSE [kind |-> "notdir", stk |-> stk, nstk |-> nstk, id |-> id, rest |-> parts]
+    ELSE IF bud = 0 THEN [kind |-> "loop", stk |-> stk, nstk |-> nstk, id |-> id, rest |-> parts]
+    ELSE MWalk(st, IF n.tgt.abs THEN <<Root>> ELSE stk, IF n.tgt.abs THEN <<>> ELSE nstk,
+               n.tgt.parts \o rest, bud - 1)
+
+RECURSIVE MkChain(_, _, _, _)
+MkChain(st, dir, names, perm) ==
+    IF names = <<>> THEN st
+    ELSE MkChain(CreateDirIn(st, dir, Head(names), perm), st.next, Tail(names), perm)
+
+(* KF01  MemFS.Rename of a directory onto itself (same resolved path) succeeds; os.Rename says EEXIST. *)
+KF01(impl, st, c) ==
+    LET ro == Res(st, c.p, FALSE)   rn == Res(st, c.q, FALSE) IN
+    IF Mem(impl) /\ c.op = "rename" /\ ro.err = "ok" /\ rn.err = "ok" /\ IsDir(st, ro.id)
+       /\ ro.id = rn.id /\ ro.nm = rn.nm
+    THEN {Dev("KF01", Ok(st), "ok", FALSE)} ELSE {}
+
+(* KF02  The root directory as operand of Remove, RemoveAll and Rename: avfs has no EBUSY and answers
+         EINVAL (the effect is the reference's: nothing for Remove/Rename, RemoveAll empties the root). *)
+KF02(impl, st, c) ==
+    LET r == Res(st, c.p, FALSE)
+        strict == Apply(st, c) IN
+    IF Mem(impl) /\ c.op \in {"remove", "removeall", "rename"} /\ r.err = "ok" /\ r.id = Root
+       /\ strict.res.err = "EBUSY"
+    THEN {Dev("KF02", [res |-> [strict.res EXCEPT !.err = "EINVAL"], st |-> strict.st], "ok", FALSE)} ELSE {}
+
+(* KF03  MemFS.Rename of a directory onto an existing non-directory answers EEXIST
+         (reference: ENOTDIR, or EINVAL / EBUSY when the operands alias). *)
+KF03(impl, st, c) ==
+    LET ro == Res(st, c.p, FALSE)   rn == Res(st, c.q, FALSE) IN
+    IF Mem(impl) /\ c.op = "rename" /\ ro.err = "ok" /\ rn.err = "ok" /\ IsDir(st, ro.id)
+       /\ rn.id # 0 /\ ~IsDir(st, rn.id)
+    THEN {Dev("KF03", Fail("EEXIST", st), "ok", FALSE)} ELSE {}
+
+(* KF04  MemFS.Mkdir follows a symbolic link in final position (dangling link: the target is created;
+         looping link: ELOOP); mkdir(2) answers EEXIST. *)
+KF04(impl, st, c) ==
+    LET rl == Res(st, c.p, FALSE) IN
+    IF Mem(impl) /\ c.op = "mkdir" /\ rl.err = "ok" /\ IsLink(st, rl.id)
+    THEN {Dev("KF04", MkdirF(st, c, TRUE, MemLinkBudget), "ok", FALSE)} ELSE {}
+
+(* KF05  MemFS.MkdirAll walks through every symbolic link, final ones included: directories are created
+         at the far end of a dangling link, and a looping link makes it return nil without doing anything;
+         os.MkdirAll answers EEXIST in both situations. *)
+MemMkdirAll(st, c) ==
+    LET w == MWalk(st, <<Root>>, <<>>, AbsParts(st, c.p), MemLinkBudget) IN
+    CASE w.kind = "found"   -> IF IsDir(st, w.id) THEN Ok(st) ELSE Fail("ENOTDIR", st)
+      [] w.kind = "notdir"  -> Fail("ENOTDIR", st)
+      [] w.kind = "denied"  -> Fail("EACCES", st)
+      [] w.kind = "loop"    -> Ok(st)
+      [] w.kind = "missing" -> IF ~MayWX(st, Last(w.stk)) THEN Fail("EACCES", st)
+                               ELSE Ok(MkChain(st, Last(w.stk), w.rest, c.perm))
+
+\* does resolving the path meet a symbolic link at all?
+RECURSIVE MeetsLink(_, _, _, _)
+MeetsLink(st, id, parts, fuel) ==
+    IF parts = <<>> \/ fuel = 0 \/ ~IsDir(st, id) THEN FALSE
+    ELSE LET c == Head(parts) IN
+         IF c \notin DOMAIN st.ino[id].ent THEN FALSE
+         ELSE IsLink(st, st.ino[id].ent[c]) \/ MeetsLink(st, st.ino[id].ent[c], Tail(parts), fuel - 1)
+
+KF05(impl, st, c) ==
+    IF Mem(impl) /\ c.op = "mkdirall" /\ MeetsLink(st, Root, AbsParts(st, c.p), 8)
+    THEN {Dev("KF05", MemMkdirAll(st, c), "ok", FALSE)} ELSE {}
+
+(* KF06  MemFS.OpenFile with O_CREATE|O_EXCL follows a symbolic link in final position
+         (dangling link: the target is created; looping link: ELOOP); open(2) answers EEXIST. *)
+KF06(impl, st, c) ==
+    LET rl == Res(st, c.p, FALSE)
+        o == OpenCoreF(st, c, TRUE, MemLinkBudget) IN
+    IF Mem(impl) /\ c.op \in {"openclose", "createtemp"} /\ HasFlag(c, "CREATE") /\ HasFlag(c, "EXCL")
+       /\ rl.err = "ok" /\ IsLink(st, rl.id)
+    THEN {Dev("KF06", [res |-> o.res, st |-> o.st], "ok", FALSE)} ELSE {}
+
+(* KF07  MemFS.Link refuses a symbolic link as source with EPERM; link(2) links the link itself. *)
+KF07(impl, st, c) ==
+    LET ro == Res(st, c.p, FALSE) IN
+    IF Mem(impl) /\ c.op = "link" /\ ro.err = "ok" /\ IsLink(st, ro.id) /\ Apply(st, c).res.err = "ok"
+    THEN {Dev("KF07", Fail("EPERM", st), "ok", FALSE)} ELSE {}
+
+(* KF08  MemFS.Rename reports a missing source (ENOENT) before an unusable destination directory
+         (reference: the error of the destination path - ENOTDIR, ELOOP - comes first). *)
+KF08(impl, st, c) ==
+    LET ro == Res(st, c.p, FALSE)   rn == Res(st, c.q, FALSE) IN
+    IF Mem(impl) /\ c.op = "rename" /\ ro.err = "ok" /\ ro.id = 0 /\ rn.err \notin {"ok", "ENOENT"}
+    THEN {Dev("KF08", Fail("ENOENT", st), "ok", FALSE)} ELSE {}
+
 \* DEVIATIONS-END
 
-AllKF == {}
+KFTable(impl, st, c) ==
+    [KF01 |-> KF01(impl, st, c), KF02 |-> KF02(impl, st, c), KF03 |-> KF03(impl, st, c),
+     KF04 |-> KF04(impl, st, c), KF05 |-> KF05(impl, st, c), KF06 |-> KF06(impl, st, c),
+     KF07 |-> KF07(impl, st, c), KF08 |-> KF08(impl, st, c)]
 
-DevOutcomes(impl, st, c) == {}
+AllKF == {"KF01", "KF02", "KF03", "KF04", "KF05", "KF06", "KF07", "KF08"}
+
+DevOutcomes(impl, st, c) ==
+    LET t == KFTable(impl, st, c) IN UNION {t[k] : k \in (OpenKF \cap DOMAIN t)}
 
 Outcomes(impl, st, c) ==
     IF impl = "osfs" THEN {Strict(o) : o \in StrictOutcomes(st, c)}
